@@ -250,7 +250,11 @@ func (fc *FuncCtx) evalSpec(st *State, e *SExpr, sc *specCtx) Val {
 			if g, ok := fc.eng.contracts.Ghosts[e.Name]; ok && len(g.Params) == 0 {
 				return fc.callGhost(st, g, nil, sc)
 			}
-			panic(engineError{fmt.Sprintf("spec: unknown name %q", e.Name)})
+			where := ""
+			if sc.callee != nil && sc.callee.fn != nil {
+				where = " (in the contract of " + sc.callee.fn.FullName() + ")"
+			}
+			panic(engineError{fmt.Sprintf("spec: unknown name %q%s", e.Name, where)})
 		}
 		return v
 	case "old":
@@ -416,6 +420,13 @@ func (fc *FuncCtx) evalSpec(st *State, e *SExpr, sc *specCtx) Val {
 		panic(engineError{fmt.Sprintf("spec: index on sort %s", base.T.Sort)})
 	case "slice":
 		base := fc.evalSpec(st, e.Args[0], sc)
+		if base.Loc != nil {
+			base = Val{T: fc.readLoc(st, base.Loc), Typ: base.Loc.Typ}
+		}
+		if p := pointee(base.Typ); p != nil && base.T != nil && base.T.Sort.Kind == "V" && fc.sortOf(p).Kind == "Slice" {
+			l := fc.derefLoc(st, base, token.NoPos)
+			base = Val{T: fc.readLoc(st, l), Typ: p}
+		}
 		lo := IntLit(0)
 		hi := SliceLen(base.T)
 		if e.Args[1] != nil {
@@ -726,6 +737,15 @@ func (fc *FuncCtx) specBuiltin(st *State, name string, argEs []*SExpr, sc *specC
 	tBool := types.Typ[types.Bool]
 	tInt := types.Typ[types.Int]
 	switch name {
+	case "param":
+		// the enclosing function's parameter of that name, even where a local shadows it
+		if len(argEs) == 1 && argEs[0].Kind == "ident" && fc.sig != nil && sc.callee == nil {
+			for i := 0; i < fc.sig.Params().Len(); i++ {
+				if p := fc.sig.Params().At(i); p.Name() == argEs[0].Name {
+					return fc.objVal(st, p), true
+				}
+			}
+		}
 	case "len":
 		a := arg(0)
 		if a.Loc != nil {
